@@ -46,6 +46,21 @@ func init() {
 		}
 		return vs
 	})
+	// the variants that start with the poller's spare slot list drained, on their own: explored one
+	// preemption deeper under the race detector (the cache has to grow while the poller recycles)
+	register("slot.drained", func(tier string) []Variant {
+		var vs []Variant
+		for _, akind := range []string{"client", "server"} {
+			for _, aclose := range []string{"user", "user+peerevent", "hup-queued+user"} {
+				akind, aclose := akind, aclose
+				vs = append(vs, Variant{
+					Name: fmt.Sprintf("A=%s,Aclose=%s,stale=none,reopen-early=true,spare-slots=drained", akind, aclose),
+					Make: func() *vsched.Scenario { return slotScenario(akind, aclose, "none", true, true) },
+				})
+			}
+		}
+		return vs
+	})
 }
 
 func slotScenario(akind, aclose, stale string, early, drained bool) *vsched.Scenario {
